@@ -297,6 +297,9 @@ func (store ItemVarStore) GetDelta(index VariationStoreIndex, coords []Coord) fl
 	deltaSet := varData.DeltaSets[index.DeltaSetInner]
 	var delta float32
 	for i, regionIndex := range varData.RegionIndexes {
+		if int(regionIndex) >= len(store.VariationRegionList.VariationRegions) {
+			continue // invalid region index
+		}
 		region := store.VariationRegionList.VariationRegions[regionIndex]
 		v := region.Evaluate(coords)
 		delta += float32(deltaSet[i]) * v
